@@ -148,9 +148,26 @@ CHECKS = [
         "explored shapes and value lattice are stated in the evidence",
         "bounded exploration of the real compiler against an exact oracle (stand-in) + deductive step contracts (z3 FP)",
         "DESIGN.md 3 (C05)"),
+    chk("C01", "other",
+        "Two parts, reported separately. Proved deductively (symbolic reals, every iteration order of inverter sets): greedy top-up "
+        "conserves power within caps, the per-inverter split never hands out more than the set got, zero requests give zeros, both "
+        "directions hand the main allocation a positive magnitude. Bounded only: the main allocation loop and the end-to-end identity "
+        "set-points + remainder = request, on seeded random consistent configurations; genuine defects found there are recorded as "
+        "known findings C01-A / C01-B with native witnesses.",
+        "main allocation (_distribute_power) is not proved: its contract is assumed at call sites; structural bound (two groups) for the "
+        "proved helpers; floats as reals",
+        "contract-based deductive verification of the helper functions + bounded native exploration of the main loop (stand-in)",
+        "DESIGN.md 3 (C01/C02)"),
+    chk("C02", "other",
+        "Proved deductively: per-inverter set-points are zero or within that inverter's exclusion/inclusion magnitudes; inverter "
+        "inclusion bounds are clipped by the battery's; top-up never exceeds a set's inclusion bound. Bounded only: group totals vs "
+        "battery bounds and 'no SoC headroom => zero' for the main allocation; known findings C02-C, C02-D (and C01-B) with witnesses.",
+        "main allocation not proved; structural bound (two groups) for the proved helpers; floats as reals",
+        "contract-based deductive verification of the helper functions + bounded native exploration of the main loop (stand-in)",
+        "DESIGN.md 3 (C01/C02)"),
 ]
 
 _PENDING = "check under construction in this session (contracts not yet written); will be claimed once its obligations discharge"
 NOT_APPLICABLE = [
     {"property_id": "C12", "reason": "formula generators are graph algorithms over networkx.DiGraph (recursive dfs, successor-set classification); no contract within reach of the VC generator expresses 'the generated formula balances for every valid graph' (DESIGN.md 4)"},
-] + [{"property_id": f"C{n:02d}", "reason": _PENDING} for n in (1, 2, 20)]
+] + [{"property_id": f"C{n:02d}", "reason": _PENDING} for n in (20,)]
